@@ -51,6 +51,7 @@ var fullName = map[string]string{
 	"WithOpt2": "pkg.WithOpt2", "UsesKind": "pkg.UsesKind", "Payload": "pkg.Payload", "Holder": "opts.Holder", "any_opt": "opts.any_opt", "WithAny": "pkg.WithAny",
 	"Far": "pkg.Svc.Far", "Remote": "pkg.Remote",
 	"ChainVal": "pkg.ChainVal", "ext_chain": "pkg.ext_chain", "ext_leaf": "pkg.ext_leaf",
+	"First": "pkg.First", "Nested1": "pkg.First.Nested1",
 }
 
 var sources = map[string]string{
@@ -160,6 +161,19 @@ package pkg;
 message Remote {
   // c:pkg.Remote.r
   optional string r = 1;
+}
+`,
+	"d.proto": `syntax = "proto2";
+package pkg;
+// c:pkg.First
+message First {
+  // c:pkg.First.f
+  optional string f = 1;
+  // c:pkg.First.Nested1
+  message Nested1 {
+    // c:pkg.First.Nested1.n
+    optional string n = 1;
+  }
 }
 `,
 	"lonely.proto": `syntax = "proto2";
@@ -396,6 +410,17 @@ func run(in []byte) (*reg.Result, error) {
 					caseInfo := map[string]any{"include": names(c.Include), "exclude": names(c.Exclude), "custom_options": c.CustomOptions, "known_extensions": c.KnownExt, "in_place": inPlace}
 					sig := fmt.Sprintf("%s/include=%s/exclude=%s", kind, strings.Join(names(c.Include), ","), strings.Join(names(c.Exclude), ","))
 					out, err := bufimageutil.FilterImage(img, filterOpts(c, inPlace)...)
+					if !inPlace {
+						// a copying filter leaves its input as it was (descriptors and source info): the next filter or
+						// plugin on the same image must see what the first one saw
+						for _, f := range base.Files() {
+							g := img.GetFile(f.Path())
+							if g == nil || !proto.Equal(f.FileDescriptorProto(), g.FileDescriptorProto()) {
+								res.Violate("input-modified/"+sig, caseInfo, "FilterImage without WithMutateInPlace changed its input image: file %s differs afterwards", f.Path())
+								break
+							}
+						}
+					}
 					if c.Conflict {
 						// the filter contradicts itself (it includes what it excludes, or something that cannot
 						// exist without an excluded type): an error and a quietly reduced result are both
